@@ -349,7 +349,12 @@ Inductive case :=
    (true = this host fails every attempt), fuel, observed trace of chosen hosts and final
    answered host (None = 502), every attempt got the complete body? *)
 | CRetry (p : pol) (base : list bool) (failing : list bool) (obs_trace : list nat)
-         (obs_final : option nat) (bodies_complete : bool).
+         (obs_final : option nat) (bodies_complete : bool)
+(* timed retry loop through the real Proxy.ServeHTTP with a fault-scripted transport per host:
+   policy, configuration in ticks, Unhealthy flags, fault script per host, interference table
+   (iteration -> host -> made unavailable for that Select), observed events and final status *)
+| CRetryT (p : pol) (c : tcfg) (unhl : list bool) (scripts : list script) (envl : list (list bool))
+          (obs : list tev) (obs_out : tout).
 
 Definition pol_select (p : pol) (mf : Z) (pool : list host) : option (option nat) :=
   let av := avail_vec mf pool in
@@ -376,6 +381,59 @@ Definition sel_of (p : pol) : N -> list bool -> option nat * N :=
 
 Fixpoint NoDup_b (l : list nat) : bool :=
   match l with [] => true | x :: r => negb (existsb (Nat.eqb x) r) && NoDup_b r end.
+
+
+(* --- helpers of the timed retry cases --- *)
+Definition akind_eqb (a b : akind) : bool :=
+  match a, b with KOk, KOk | KFailBefore, KFailBefore | KFailAfter, KFailAfter | KRefuse, KRefuse => true
+  | _, _ => false end.
+Definition rxk_eqb (a b : rxk) : bool :=
+  match a, b with RxNotRead, RxNotRead | RxFull, RxFull | RxClosed, RxClosed | RxBad, RxBad => true
+  | _, _ => false end.
+Definition tev_eqb (a b : tev) : bool :=
+  match a, b with
+  | ENone t, ENone t' => t =? t'
+  | ERefused t i, ERefused t' i' => (t =? t') && Nat.eqb i i'
+  | EAttempt t i k rx ok te, EAttempt t' i' k' rx' ok' te' =>
+      (t =? t') && Nat.eqb i i' && akind_eqb k k' && rxk_eqb rx rx' && Bool.eqb ok ok' && (te =? te')
+  | _, _ => false
+  end.
+Definition tout_eqb (a b : tout) : bool :=
+  match a, b with
+  | TAnswered i t, TAnswered i' t' => Nat.eqb i i' && (t =? t')
+  | T502 t, T502 t' => t =? t'
+  | THang, THang => true
+  | _, _ => false
+  end.
+(* the observed trace follows the fault scripts and the clock only moves forward *)
+Fixpoint trace_wf (scr : nat -> script) (cnt : nat -> nat) (last_t : N) (tr : list tev) : bool :=
+  match tr with
+  | [] => true
+  | ENone t :: r => (last_t <=? t) && trace_wf scr cnt t r
+  | ERefused t i :: r =>
+      (last_t <=? t) && is_refuse (ak (script_at (scr i) (cnt i))) &&
+      trace_wf scr (upd cnt i (Datatypes.S (cnt i))) t r
+  | EAttempt t i k rx ok te :: r =>
+      let a := script_at (scr i) (cnt i) in
+      (last_t <=? t) && akind_eqb k (ak a) && negb (is_refuse k) && (te =? t + adur a) &&
+      Bool.eqb ok (att_ok k rx) &&
+      match k, rx with KFailBefore, RxNotRead => true | KFailBefore, _ => false | _, RxNotRead => false | _, _ => true end &&
+      trace_wf scr (upd cnt i (Datatypes.S (cnt i))) te r
+  end.
+(* Select found no host only when, by the books of this request, none was available *)
+Fixpoint none_ok (n : nat) (mf ft : N) (unh : nat -> bool) (env : nat -> nat -> bool)
+         (it : nat) (acc : nat -> list N) (tr : list tev) : bool :=
+  match tr with
+  | [] => true
+  | e :: r =>
+      match e with
+      | ENone t => forallb (fun i => unh i || env it i || (mf <=? live t (acc i))) (seq 0 n)
+      | _ => true
+      end && none_ok n mf ft unh env (Datatypes.S it) (ev_fail_rec ft acc e) r
+  end.
+Definition dmax_of (n : nat) (scr : nat -> script) : N :=
+  fold_left N.max (flat_map (fun i => adur (sdflt (scr i)) :: map adur (spre (scr i))) (seq 0 n)) 0.
+Definition is_answered (o : tout) : bool := match o with TAnswered _ _ => true | _ => false end.
 
 Definition judge (c : case) : N :=
   match c with
@@ -422,5 +480,36 @@ Definition judge (c : case) : N :=
         end &&
         (* every attempt went to an available host not yet failed in this request *)
         NoDup_b obs_trace && forallb (fun i => nth i base false) obs_trace in
+      verdict agree spec
+  | CRetryT p c unhl scripts envl obs obs_out =>
+      let n := t_n c in
+      let unh := fun i => nth i unhl true in
+      let scr := fun i => nth i scripts (mk_script [] (mk_astep KFailBefore 0)) in
+      let env := fun it i => nth i (nth it envl []) false in
+      let det := match p with PFirst | PRoundRobin _ | PHash _ | PHeaderValue _ => true | _ => false end in
+      let st0 := match p with PRoundRobin r => r | _ => 0 end in
+      let fuel := (N.to_nat (t_td c / t_ti c) + 3)%nat in
+      let '(out, tr) := runT N (sel_of p) c unh scr env fuel 0 (fun _ => []) (fun _ => 0%nat) st0 true 0 in
+      let agree := negb det || (list_beq tev_eqb tr obs && tout_eqb out obs_out) in
+      let dmax := dmax_of n scr in
+      let env_clear g := forallb (fun row => negb (nth g row false)) envl in
+      let spec :=
+        trace_wf scr (fun _ => 0%nat) 0 obs &&
+        (* failed hosts are skipped until their failure expires; Select finds a host whenever one is available *)
+        skip_ok (t_mf c) (t_ft c) (fun _ => []) obs &&
+        none_ok n (t_mf c) (t_ft c) unh env 0 (fun _ => []) obs &&
+        (* every attempt receives the complete original body when it is buffered *)
+        (* ("with retries enabled (non-zero try_duration and fail_timeout) ... every attempt receiving
+           the complete original body": also demanded of the single-host pool, which is not buffered) *)
+        (negb (negb (t_hasbody c) || t_buf c || (negb (t_td c =? 0) && negb (t_ft c =? 0))) || bodies_ok obs) &&
+        first_attempt_ok obs &&
+        (* 200 only from a successful forward to a host that is not unhealthy, 502 only after failures *)
+        answered_ok n unh obs obs_out &&
+        (* a healthy backend exists and the budget covers the others => answered *)
+        (negb (existsb (fun g => reach_hyp c unh scr g dmax && env_clear g) (seq 0 n)) || is_answered obs_out) &&
+        (* 502 only once the duration is spent; and when nobody can succeed, 502 within the bound *)
+        match obs_out with T502 t => t_td c <=? t | THang => false | TAnswered _ _ => true end &&
+        (negb (never_ok n scr && (0 <? t_ti c)) ||
+         match obs_out with T502 t => t <? t_td c + t_ti c + dmax | _ => false end) in
       verdict agree spec
   end.
